@@ -59,6 +59,61 @@ class FaultyStream(io.BytesIO):
         return super().close()
 
 
+_real_np_load = None
+
+
+def install_numpy_load_seam():
+    """Second I/O seam, for library code that stops using
+    pkg_resources.resource_stream (deprecated) and opens its tables some other
+    way: numpy.load itself serves the file through a FaultyStream when called
+    by a simulated client."""
+    global _real_np_load
+    import numpy as np
+    if _real_np_load is not None:
+        return
+    _real_np_load = np.load
+
+    def load(file, *a, **k):
+        cl = current_client()
+        if cl is None or not cl.io_enabled or cl.op is None or isinstance(file, FaultyStream):
+            return _real_np_load(file, *a, **k)
+        name = getattr(file, "name", None) if not isinstance(file, (str, bytes)) else file
+        try:
+            if hasattr(file, "read"):
+                data = file.read()
+            else:
+                import os
+                with open(os.fspath(file), "rb") as fh:
+                    data = fh.read()
+        except Exception:  # noqa
+            return _real_np_load(file, *a, **k)
+        import os
+        base = os.path.basename(str(name)) if name else "?"
+        mod = cl.on_open(base)
+        if mod is not None:
+            kind, arg = mod
+            if kind == "eof":
+                data = data[:arg % (len(data) + 1)]
+            elif kind == "flip" and data:
+                bit = arg % (len(data) * 8)
+                b = bytearray(data)
+                b[bit // 8] ^= 1 << (bit % 8)
+                data = bytes(b)
+        return _real_np_load(FaultyStream(data, cl, base), *a, **k)
+    load._wavesim = True
+    np.load = load
+    try:
+        import numpy.lib.npyio as npyio
+        npyio.load = load
+    except Exception:  # noqa
+        pass
+
+
+def _sys_np_load():
+    import numpy as np
+    return np.load
+
+
 def make_resource_stream(orig):
     """Replacement for coeffs.resource_stream."""
     def resource_stream(package, name):
@@ -386,6 +441,7 @@ _ORDER = [
     "pytorch_wavelets",
 ]
 _code = {}
+_not_reloadable = set()
 
 
 _baseline = None
@@ -562,8 +618,20 @@ def fresh_library(patch_stream=False):
                 co = compile(_knobify(src, m.__file__, name), m.__file__, "exec",
                              dont_inherit=True)
                 _code[name] = co
+            if name in _not_reloadable:
+                mods.append(m)
+                continue
             m.__dict__["__wavesim_knob__"] = _knob
-            exec(co, m.__dict__)
+            saved = dict(m.__dict__)
+            try:
+                exec(co, m.__dict__)
+            except Exception:  # noqa
+                # a module whose body cannot run twice in one process (e.g. it
+                # registers a torch.library op): keep the state it has; its
+                # globals are then not reset between runs (probe, not an error)
+                m.__dict__.clear()
+                m.__dict__.update(saved)
+                _not_reloadable.add(name)
             mods.append(m)
     finally:
         _threading.Lock, _threading.RLock = _RealLock, _RealRLock
@@ -574,4 +642,9 @@ def fresh_library(patch_stream=False):
     L.orig_resource_stream = L.coeffs.__dict__.get("resource_stream")
     if patch_stream and L.orig_resource_stream is not None:
         L.coeffs.resource_stream = make_resource_stream(L.orig_resource_stream)
+    if patch_stream:
+        install_numpy_load_seam()
+        ld = L.coeffs.__dict__.get("load")
+        if ld is _real_np_load:
+            L.coeffs.load = _sys_np_load()
     return L
